@@ -34,6 +34,10 @@ FUNC_NAMES = {"ADDITION": 1, "SUBTRACTION": 2, "MULTIPLICATION": 3, "EQUALITY": 
               "MAXIMUM": 13, "PRESENCE": 14, "UPPER_BOUND": 15, "LOWER_BOUND": 16}
 EXPR_KEYS = ("constant", "constant_reference", "function", "field_reference", "boolean_constant",
              "builtin_reference")
+BIN_PY = {"add": lambda a, b: a + b, "sub": lambda a, b: a - b, "mul": lambda a, b: a * b,
+          "eq": lambda a, b: a == b, "ne": lambda a, b: a != b, "lt": lambda a, b: a < b,
+          "le": lambda a, b: a <= b, "gt": lambda a, b: a > b, "ge": lambda a, b: a >= b,
+          "and": lambda a, b: bool(a) and bool(b), "or": lambda a, b: bool(a) or bool(b)}
 ATTR_KINDS = {"is_signed": "boolconst", "is_integer": "boolconst", "requires": "bool", "static_requirements": "bool",
               "addressable_unit_size": "int", "maximum_bits": "int", "fixed_size_in_bits": "int",
               "byte_order": "strlist", "text_output": "strlist", "expected_back_ends": "backends"}
@@ -118,6 +122,8 @@ class Walker:
         self.locs = {}       # (file, locstr) -> id
         self.files = {}      # file name -> id
         self.enum_ids = {}   # (module_file, object path) -> id: an enum is its definition, not its name
+        self.leaf_ids = {}   # canonical name of a field / parameter -> leaf id in C05's language
+        self.cst_stats = {"c05": 0, "closedness": 0}
         self.size = 0
         for mod in ird["module"]:
             mf = mod.get("source_file_name", "")
@@ -243,6 +249,148 @@ class Walker:
             raise Unmodelled("function %r with %d args" % (fn, len(args)))
         raise Unmodelled("expression variety %r" % sorted(e))
 
+    # -- the same value in C05's expression language (`Emboss.Bounds.Expr`): literal values, the
+    #    physical type and size of every integer leaf, the definitions behind references.  Built
+    #    from the IR *before* any typing or bounds pass has run, i.e. from the declarations only.
+    def leaf_id(self, key):
+        if key not in self.leaf_ids:
+            self.leaf_ids[key] = len(self.leaf_ids)
+        return self.leaf_ids[key]
+
+    def _literal(self, e):
+        """value of an expression that is a numeric literal (sizes are almost always that)."""
+        if isinstance(e, dict) and "constant" in e:
+            return int(e["constant"].get("value", "0") or 0)
+        return None
+
+    def ceval(self, e, depth=0):
+        """the numeric value of an enum value's defining expression (closed integer arithmetic,
+        other enum values, static references to closed virtual fields); None if it is not that."""
+        if depth > 60 or not isinstance(e, dict):
+            return None
+        if "constant" in e:
+            return self._literal(e)
+        if "boolean_constant" in e:
+            return bool(e["boolean_constant"].get("value", False))
+        if "constant_reference" in e:
+            kind, node, _ = self.objs.get(self.ref_key(e["constant_reference"]), (None, None, None))
+            if kind == "enumvalue":
+                return self.ceval(node.get("value", {}), depth + 1)
+            if kind == "field" and "read_transform" in node:
+                return self.ceval(node["read_transform"], depth + 1)
+            return None
+        if "function" in e:
+            fn = e["function"].get("function", 0)
+            if isinstance(fn, str):
+                fn = FUNC_NAMES.get(fn, 0)
+            name = FUNCS.get(fn)
+            vs = [self.ceval(a, depth + 1) for a in e["function"].get("args", [])]
+            if any(v is None for v in vs):
+                return None
+            try:
+                if name in BIN_PY and len(vs) == 2:
+                    return BIN_PY[name](vs[0], vs[1])
+                if name == "choice" and len(vs) == 3:
+                    return vs[1] if vs[0] else vs[2]
+                if name == "max" and vs:
+                    return max(vs)
+            except TypeError:
+                return None
+        return None
+
+    def bleaf(self, key, t, field, why):
+        """leaf of C05's language for a reference to a parameter / physical field whose type is t."""
+        if "atomic_type" not in t:
+            raise Unmodelled("constancy: %s of array type" % why)
+        tkey = self.ref_key(t["atomic_type"]["reference"])
+        ty = self.typedef_ty(tkey)
+        if ty == "B":
+            return "bl %d" % self.leaf_id(key)
+        if ty.startswith("E"):
+            return "el %d" % self.leaf_id(key)
+        if ty != "I":
+            raise Unmodelled("constancy: %s of opaque type" % why)
+        kind = {("UInt",): "u", ("Int",): "s", ("Bcd",): "d"}.get(tkey[1])
+        if kind is None or tkey[0] != "":
+            raise Unmodelled("constancy: integer type other than UInt/Int/Bcd")
+        size = None
+        if "size_in_bits" in t:
+            size = self._literal(t["size_in_bits"])
+            if size is None:
+                raise Unmodelled("constancy: explicit size is not a literal")
+        elif field is not None:
+            n = self._literal(field.get("location", {}).get("size"))
+            if n is None:
+                raise Unmodelled("constancy: field size is not a literal")
+            parent = self.objs.get((key[0], key[1][:-1]), (None, {}, None))[1]
+            unit = {"BIT": 1, "BYTE": 8, 1: 1, 8: 8}.get(parent.get("addressable_unit"))
+            if unit is None:
+                raise Unmodelled("constancy: addressable unit of the enclosing type")
+            size = n * unit
+        return "%s %d %s" % (kind, self.leaf_id(key), "?" if size is None else size)
+
+    def bexpr(self, e, depth=0):
+        if depth > 80:
+            raise Unmodelled("constancy: reference chain too deep")
+        self.size += 1
+        if self.size > 60000:
+            raise Unmodelled("too-large: inlined expression tree")
+        if "constant" in e:
+            return "c %d" % self._literal(e)
+        if "boolean_constant" in e:
+            return "t" if e["boolean_constant"].get("value", False) else "f"
+        if "builtin_reference" in e:
+            nm = e["builtin_reference"]["canonical_name"]["object_path"][0]
+            if nm == "$static_size_in_bits":
+                return "ss %d" % self.leaf_id(("$builtin", nm))
+            if nm == "$is_statically_sized":
+                return "bl %d" % self.leaf_id(("$builtin", nm))
+            raise Unmodelled("constancy: builtin %s" % nm)
+        if "constant_reference" in e:
+            key = self.ref_key(e["constant_reference"])
+            kind, node, mf = self.objs.get(key, (None, None, None))
+            if kind == "enumvalue":
+                v = self.ceval(node.get("value", {}))
+                if v is None or isinstance(v, bool):
+                    raise Unmodelled("constancy: enum value is not closed integer arithmetic")
+                return "ec %d" % v
+            if kind == "field" and "read_transform" in node:
+                return "cref " + self.bexpr(node["read_transform"], depth + 1)
+            raise Unmodelled("constancy: static reference to something without a definition")
+        if "field_reference" in e:
+            key = self.ref_key(e["field_reference"]["path"][-1])
+            kind, node, mf = self.objs[key]
+            if kind == "param":
+                return self.bleaf(key, node["physical_type_alias"], None, "parameter")
+            if "read_transform" in node:
+                return "vref " + self.bexpr(node["read_transform"], depth + 1)
+            return self.bleaf(key, node.get("type", {}), node, "field")
+        if "function" in e:
+            f = e["function"]
+            fn = f.get("function", 0)
+            if isinstance(fn, str):
+                fn = FUNC_NAMES.get(fn, 0)
+            name = FUNCS.get(fn)
+            args = f.get("args", [])
+            if name == "present" and len(args) == 1 and "field_reference" in args[0]:
+                key = self.ref_key(args[0]["field_reference"]["path"][-1])
+                kind, node, mf = self.objs[key]
+                if kind != "field" or "existence_condition" not in node:
+                    raise Unmodelled("constancy: $present of a non-field")
+                # the argument itself is only a name to C05's model (any type): a boolean leaf stands for it
+                return "present bl %d %s" % (self.leaf_id(key), self.bexpr(node["existence_condition"], depth + 1))
+            sub = [self.bexpr(a, depth + 1) for a in args]
+            if name in BIN_PY and len(sub) == 2:
+                return "%s %s %s" % (name, sub[0], sub[1])
+            if name == "choice" and len(sub) == 3:
+                return "ch " + " ".join(sub)
+            if name == "max" and sub:
+                return "max %d %s" % (len(sub), " ".join(sub))
+            if name in ("upper", "lower") and len(sub) == 1:
+                return ("ub " if name == "upper" else "lb ") + sub[0]
+            raise Unmodelled("constancy: function %r with %d arguments" % (name, len(sub)))
+        raise Unmodelled("constancy: expression variety %r" % sorted(e))
+
     def beyond_closedness(self, e):
         """Is this a value whose constancy the real compiler may judge differently from
         closedness?  It mentions a field / parameter / builtin (anywhere, through references)
@@ -360,9 +508,19 @@ class Walker:
                         ok = txt in STR_VALUES.get(nm, ())
                     out.append("%s %s s%d" % (l, kind, 1 if ok else 0))
                 elif "expression" in v:
-                    if ATTR_KINDS[nm] in ("boolconst", "int") and self.beyond_closedness(v["expression"]):
-                        raise Unmodelled("constancy: attribute value is not closed but may fold to a constant")
-                    out.append("%s %s x %s" % (l, kind, self.expr(v["expression"], file)))
+                    cst = "k0"
+                    if ATTR_KINDS[nm] in ("boolconst", "int"):
+                        # constancy is C05's: hand the value over in its language; where that is not
+                        # possible (sizes that are not literals, unusual integer types, ill-typed
+                        # operands) fall back to closedness, and leave the module out if the two may differ
+                        try:
+                            cst = "k1 " + self.bexpr(v["expression"])
+                            self.cst_stats["c05"] += 1
+                        except Unmodelled:
+                            if self.beyond_closedness(v["expression"]):
+                                raise
+                            self.cst_stats["closedness"] += 1
+                    out.append("%s %s x %s %s" % (l, kind, self.expr(v["expression"], file), cst))
                 else:
                     raise Unmodelled("attribute value %r" % sorted(v))
 
@@ -639,14 +797,15 @@ def _work(arg):
     files = case.get("files") or {"m.emb": case["text"]}
     main = case.get("main", "m.emb")
     out = real_outcome(files, main)
-    line, why, cr = None, None, None
+    line, why, cr, cs = None, None, None, None
     if model_ok:
         line, w = model_input(files, main)
         if line is None:
             why = w
         else:
             cr = canon_real(out, w)
-    return out, line, why, cr
+            cs = w.cst_stats
+    return out, line, why, cr, cs
 
 
 def evaluate(chk, cases, model_ok, stats):
@@ -659,7 +818,9 @@ def evaluate(chk, cases, model_ok, stats):
             results = pool.map(_work, args, chunksize=2)
     else:
         results = [_work(a) for a in args]
-    for case, (out, line, why, cr) in zip(cases, results):
+    for case, (out, line, why, cr, cs) in zip(cases, results):
+        for k, v in (cs or {}).items():
+            stats["constancy_judged_by_" + k] = stats.get("constancy_judged_by_" + k, 0) + v
         files = case.get("files") or {"m.emb": case["text"]}
         main = case.get("main", "m.emb")
         chk.count()
